@@ -16,9 +16,9 @@ import (
 
 func init() {
 	ev.Register(&ev.Check{
-		ID:    "C01",
-		Level: "exploration",
-		Rule: "ALL schemas of the rule-free fragment with <= 3 (thorough 4) example nodes (5 scalar kinds, objects over keys a,b, arrays; every node independently nullable:true/false and type:any where legal, every property optional:true/false/unmarked) x ALL JSON documents with <= 4 (5) nodes over {1,1.5,\"s\",true,null,{},[]} with keys a,b,c in every key order, under both KeysAreOptionalByDefault settings; plus depth-5 spines (all 16 object/array nestings, width <= 2, every flag placement) with all documents within 2 structural edits of the example. Oracle: reference shape matcher (three-valued) + differential: optional-by-default == default with every unmarked key marked optional. Non-trivial = distinct (schema, config, document) on which Check succeeded and the reference is decided.",
+		ID:             "C01",
+		Level:          "exploration",
+		Rule:           "ALL schemas of the rule-free fragment with <= 3 (thorough 4) example nodes (5 scalar kinds, objects over keys a,b, arrays; every node independently nullable:true/false and type:any where legal, every property optional:true/false/unmarked) x ALL JSON documents with <= 4 (5) nodes over {1,1.5,\"s\",true,null,{},[]} with keys a,b,c in every key order, under both KeysAreOptionalByDefault settings; plus depth-5 spines (all 16 object/array nestings, width <= 2, every flag placement) with all documents within 2 structural edits of the example. Oracle: reference shape matcher (three-valued) + differential: optional-by-default == default with every unmarked key marked optional. Non-trivial = distinct (schema, config, document) on which Check succeeded and the reference is decided.",
 		Run:            run,
 		Replay:         replay,
 		QuickBudget:    80 * time.Second,
